@@ -256,6 +256,84 @@ func c04Units(c *mc.Check, maxTok int) {
 	f.Done()
 }
 
+// c04Multisets: long numerators. Every multiset of components is a unit in
+// which each ns contributes 1e-9 and each MB 1e6, whatever the other
+// components are — in particular when the factors cancel (two ns and three
+// MB scale by exactly 1) or accumulate beyond what one float step holds.
+func c04Multisets(c *mc.Check, maxComp int) {
+	comps := []string{"ns", "MB", "B", "x"}
+	f := c.Family("component-multisets", fmt.Sprintf("every multiset of 1..%d numerator components from %v, written in three orders (sorted, reversed, interleaved) with separators * and -, alone and over the denominators /op and /ns*MB, × values {1, 2.5, 0, +Inf, NaN}, through the real Reader with the full per-unit oracle of units-through-reader (base unit named for every value, scaling by the product of the factors, original pair kept, filters and metadata under both spellings); non-trivial = multisets whose scale factors cancel to exactly 1 or involve ≥3 rescaled components", maxComp, comps), c04Replay)
+	if c.Replaying() {
+		return
+	}
+	f.Bounds["max_components"] = maxComp
+	var units []string
+	var cancel []bool
+	for n := 1; n <= maxComp; n++ {
+		mc.Multisets(len(comps), n, func(m []int) {
+			toks := make([]string, n)
+			nns, nmb := 0, 0
+			for i, k := range m {
+				toks[i] = comps[k]
+				if comps[k] == "ns" {
+					nns++
+				}
+				if comps[k] == "MB" {
+					nmb++
+				}
+			}
+			rev := make([]string, n)
+			inter := make([]string, 0, n)
+			for i := range toks {
+				rev[i] = toks[n-1-i]
+			}
+			for i, j := 0, n-1; i <= j; i, j = i+1, j-1 {
+				inter = append(inter, toks[i])
+				if i != j {
+					inter = append(inter, toks[j])
+				}
+			}
+			for oi, order := range [][]string{toks, rev, inter} {
+				sep := []string{"*", "-", "*"}[oi]
+				num := strings.Join(order, sep)
+				for _, den := range []string{"", "/op", "/ns*MB"} {
+					units = append(units, num+den)
+					cancel = append(cancel, (nns > 0 && 3*nns == 2*nmb) || nns+nmb >= 3)
+				}
+			}
+		})
+	}
+	vals := []float64{1, 2.5, 0, math.Inf(1), math.NaN()}
+	mc.ParRange(uint64(len(units)), 16, c.TimeUp, func(w int, lo, hi uint64) {
+		e := &c04Env{}
+		l := f.Local()
+		for i := lo; i < hi; i++ {
+			unit := units[i]
+			var val, msg string
+			if p := mc.Catch(func() { val, msg = c04CheckUnit(e, unit, vals) }); p != "" {
+				msg = p
+			}
+			if msg == "" {
+				if p := mc.Catch(func() { msg = c04CheckAPI(unit) }); p != "" {
+					msg = p
+				}
+			}
+			l.Evals += int64(len(vals))
+			if cancel[i] {
+				l.Nontrivial += int64(len(vals))
+			}
+			_, factors, _ := ref.BaseUnit(unit)
+			l.Outcome(fmt.Sprintf("factors=%d", len(factors)))
+			if msg != "" {
+				c.Fail(f, c04Sig(unit, val, msg), c04Case{unit, val}, msg)
+			}
+		}
+		l.Flush()
+	})
+	f.Sample(c04Case{"ns*ns*MB*MB*MB/op", "1"})
+	f.Done()
+}
+
 // c04API exercises benchunit.Tidy / ClassOf directly, including units with
 // blanks (which cannot be written in a benchmark line), sweeping the unit
 // list in two opposite orders in one process because the result cache is
@@ -335,6 +413,7 @@ func TestVerifC04(t *testing.T) {
 	c.Assume("reference unit model internal/verifref/unit.go")
 	c04Units(c, mc.Pick(c, 5, 6))
 	c04API(c, mc.Pick(c, 5, 6))
+	c04Multisets(c, mc.Pick(c, 7, 10))
 	if code := c.Finish(); code != 0 {
 		os.Exit(code)
 	}
